@@ -5,6 +5,8 @@ import (
 	"regexp"
 	"strings"
 
+	"golang.org/x/tools/go/ssa"
+
 	"verif/internal/core"
 )
 
@@ -123,4 +125,206 @@ func checkDSOperands(c *core.Ctx, t *InstTables) {
 		}
 	}
 	st.Sample("%d DS rows outside the transcribed grammar (undecided)", undecided)
+}
+
+// R04.29: the register counts of the FLAT operands follow the mnemonic.
+//
+//	flat_load_<ubyte|sbyte|ushort|sshort|dword>   VDST = 1      flat_load_dwordxN    VDST = N
+//	flat_store_<byte|short|dword>                 DATA = 1      flat_store_dwordxN   DATA = N
+//	flat_atomic_<op>                              DATA = 1, VDST = 1  (cmpswap: DATA = 2)
+//	flat_atomic_<op>_x2                           DATA = 2, VDST = 2  (cmpswap_x2: DATA = 4)
+//
+// decodeFLAT builds both operands with a count of 0 (one register) and widens them in
+// a switch over the opcode; the blocks it executes for a row's opcode (opReach) give
+// the final counts.
+func flatExpected(name string) (data, dst int64, decided bool) {
+	n := strings.TrimSpace(name)
+	xn := func(s string) int64 {
+		switch {
+		case strings.HasSuffix(s, "dwordx2"):
+			return 2
+		case strings.HasSuffix(s, "dwordx3"):
+			return 3
+		case strings.HasSuffix(s, "dwordx4"):
+			return 4
+		}
+		return 1
+	}
+	switch {
+	case strings.HasPrefix(n, "flat_load_"):
+		return -1, xn(n), true
+	case strings.HasPrefix(n, "flat_store_"):
+		return xn(n), -1, true
+	case strings.HasPrefix(n, "flat_atomic_"):
+		w := int64(1)
+		if strings.HasSuffix(n, "_x2") {
+			w = 2
+		}
+		d := w
+		if strings.Contains(n, "cmpswap") {
+			d = 2 * w
+		}
+		return d, w, true
+	}
+	return 0, 0, false
+}
+
+func checkFLATOperands(c *core.Ctx, t *InstTables) {
+	st := c.Rule("R04.29", "the register counts decodeFLAT gives DATA and VDST follow the mnemonic of the row: loads and stores of N dwords use N registers, a 64-bit atomic (_x2) two, compare-and-swap twice as many for DATA (source and comparand); decided per FLAT row by following the decoder for that opcode (opReach) to its last RegCount stores. A row whose opcode the decoder's switch does not list decodes a 64-bit atomic with single registers", 30)
+	fn := c.SSAFunc(instsPkg, "Disassembler.decodeFLAT")
+	if fn == nil {
+		c.Report(core.Finding{Rule: "R04.29", Kind: "anchor", Pkg: instsPkg, Func: "Disassembler.decodeFLAT", Detail: "anchor", Msg: "decodeFLAT not found"})
+		return
+	}
+	isOp := isLoadOfField("Opcode")
+	for _, r := range t.Rows {
+		if r.Format != "FLAT" {
+			continue
+		}
+		name := strings.TrimSpace(r.Name)
+		wantData, wantDst, ok := flatExpected(name)
+		if !ok {
+			continue
+		}
+		got := map[string]int64{"Data": 0, "Dst": 0}
+		for _, b := range opReach(fn, isOp, r.Opcode) {
+			for _, in := range b.Instrs {
+				s, ok := in.(*ssa.Store)
+				if !ok {
+					continue
+				}
+				fa, ok := s.Addr.(*ssa.FieldAddr)
+				if !ok || fieldNameOf(fa) != "RegCount" {
+					continue
+				}
+				ld, ok := fa.X.(*ssa.UnOp)
+				if !ok {
+					continue
+				}
+				of := core.LoadedField(ld)
+				if of == nil {
+					continue
+				}
+				if k, isC := core.ConstInt(s.Val); isC {
+					if _, tracked := got[of.Name()]; tracked {
+						got[of.Name()] = k
+					}
+				}
+			}
+		}
+		norm := func(k int64) int64 {
+			if k == 0 {
+				return 1
+			}
+			return k
+		}
+		for _, op := range []struct {
+			field string
+			want  int64
+		}{{"Data", wantData}, {"Dst", wantDst}} {
+			if op.want < 0 {
+				continue
+			}
+			st.Instances++
+			c.MarkAnalysed(fn)
+			okW := norm(got[op.field]) == op.want
+			st.Ob(okW)
+			if !okW {
+				c.Report(core.Finding{Rule: "R04.29", Pkg: instsPkg, Func: "Disassembler.decodeFLAT", Detail: fmt.Sprintf("flat-operand:%s:%s", name, op.field), Pos: c.Position(r.Pos),
+					Msg: fmt.Sprintf("%s (FLAT opcode %d) is decoded with %d register(s) for %s; the instruction uses %d: the printed operand and the registers the units read or write are those of a narrower instruction", name, r.Opcode, norm(got[op.field]), op.field, op.want)})
+			}
+		}
+	}
+}
+
+// R04.30: the register counts of the SMEM operands follow the mnemonic.
+//
+//	s_[buffer_]load_dwordxN / s_[buffer_]store_dwordxN   SDATA = N (1 for _dword)
+//	s_memtime / s_memrealtime                             SDATA = 2 (a 64-bit counter)
+//	s_buffer_* / s_atc_probe_buffer                       SBASE = 4 (a buffer resource), otherwise 2 (an address)
+func smemExpected(name string) (data, base int64, decided bool) {
+	n := strings.TrimSpace(name)
+	base = 2
+	if strings.HasPrefix(n, "s_buffer_") || n == "s_atc_probe_buffer" {
+		base = 4
+	}
+	switch {
+	case n == "s_memtime" || n == "s_memrealtime":
+		return 2, -1, true
+	case strings.Contains(n, "_dword"):
+		k := int64(1)
+		if i := strings.Index(n, "_dwordx"); i >= 0 {
+			fmt.Sscan(n[i+len("_dwordx"):], &k)
+		}
+		return k, base, true
+	}
+	return 0, 0, false
+}
+
+func checkSMEMOperands(c *core.Ctx, t *InstTables) {
+	st := c.Rule("R04.30", "the register counts decodeSMEM gives SDATA and SBASE follow the mnemonic of the row: N SGPRs for a load or store of N dwords, a pair for the 64-bit counters s_memtime / s_memrealtime, a pair for an address base and four SGPRs for the buffer resource of the s_buffer_* forms; decided per SMEM row by following the decoder for that opcode (opReach) to its last RegCount stores", 16)
+	fn := c.SSAFunc(instsPkg, "Disassembler.decodeSMEM")
+	if fn == nil {
+		c.Report(core.Finding{Rule: "R04.30", Kind: "anchor", Pkg: instsPkg, Func: "Disassembler.decodeSMEM", Detail: "anchor", Msg: "decodeSMEM not found"})
+		return
+	}
+	isOp := isLoadOfField("Opcode")
+	for _, r := range t.Rows {
+		if r.Format != "SMEM" {
+			continue
+		}
+		name := strings.TrimSpace(r.Name)
+		wantData, wantBase, ok := smemExpected(name)
+		if !ok {
+			continue
+		}
+		got := map[string]int64{"Data": 0, "Base": 0}
+		for _, b := range opReach(fn, isOp, r.Opcode) {
+			for _, in := range b.Instrs {
+				s, ok := in.(*ssa.Store)
+				if !ok {
+					continue
+				}
+				fa, ok := s.Addr.(*ssa.FieldAddr)
+				if !ok || fieldNameOf(fa) != "RegCount" {
+					continue
+				}
+				ld, ok := fa.X.(*ssa.UnOp)
+				if !ok {
+					continue
+				}
+				of := core.LoadedField(ld)
+				if of == nil {
+					continue
+				}
+				if k, isC := core.ConstInt(s.Val); isC {
+					if _, tracked := got[of.Name()]; tracked {
+						got[of.Name()] = k
+					}
+				}
+			}
+		}
+		norm := func(k int64) int64 {
+			if k == 0 {
+				return 1
+			}
+			return k
+		}
+		for _, op := range []struct {
+			field string
+			want  int64
+		}{{"Data", wantData}, {"Base", wantBase}} {
+			if op.want < 0 {
+				continue
+			}
+			st.Instances++
+			c.MarkAnalysed(fn)
+			okW := norm(got[op.field]) == op.want
+			st.Ob(okW)
+			if !okW {
+				c.Report(core.Finding{Rule: "R04.30", Pkg: instsPkg, Func: "Disassembler.decodeSMEM", Detail: fmt.Sprintf("smem-operand:%s:%s", name, op.field), Pos: c.Position(r.Pos),
+					Msg: fmt.Sprintf("%s (SMEM opcode %d) is decoded with %d register(s) for %s; the instruction uses %d", name, r.Opcode, norm(got[op.field]), op.field, op.want)})
+			}
+		}
+	}
 }
